@@ -77,7 +77,7 @@ PROPS = {
                     "only in c12_roundtrip (control frames between the fragments of one message are covered on the receive side by c13_partial and "
                     "by the generator, not by the round-trip theorem); the driver calls Ws.feed / Ws.upParse / Ws.appWrite of Model/ themselves; "
                     "asynchronous writes through the bounded send queue (Ws.appWriteQ: admission check after compression, then writeFrame's per-frame "
-                    "check): c12_sendq_all_or_nothing (accepted = appWrite, refused = nothing queued, state untouched) and c12_sendq_batch (a batch with refusals delivers exactly its accepted messages); c12_sendq_batch_driver states it for Ws.batchQ (Model/WsBatch.lean), the function the driver calls on the B lines of sendq= cases, with the observed deflate outputs assumed to be a function of the payload (DeflTable); exercised by `sendq=` cases "
+                    "check): c12_sendq_all_or_nothing (accepted = appWrite, refused = nothing queued, state untouched) and c12_sendq_batch (a batch with refusals delivers exactly its accepted messages); c12_sendq_batch_driver states it for Ws.batchQ (Model/WsBatch.lean), which the driver calls ONLY for the sending side named by from= on the B lines of sendq= cases; it starts from fresh endpoints with one Env and receiver readLimit = 0 (as c12_roundtrip), and DeflTable (the observed defl= outputs are a function of the payload: equal payloads, equal outputs) is a hypothesis on observed data that nothing checks; for direct-write B batches (no sendq=, or the other side) the driver runs a hand-written fold over Ws.appWrite for which there is no lemma '= appWrites' (equal by reading only); `hnd` cases (handler configurations data-frame only / both) are outside the model: the driver prints a constant line, they contribute oracle evidence only, no differential evidence and no theorem; exercised by `sendq=` cases "
                     "whose sender conn is gated during a batch so that the queue length is deterministic; the writer goroutine's draining is not "
                     "modelled (the queue is empty again before the next batch starts: harness waits for it)",
             "technique": "Lean 4 proof (induction over frame and segment lists) + differential correspondence"},
@@ -107,8 +107,10 @@ PROPS = {
                     "about segments); ReadLimit > 0 is c13_readlimit (Lemmas/WsReadLimit.lean: feed_readLimit): the run is that of the endpoint "
                     "without a read limit, cut at the first Parse call refused by the read-limit test with ErrTooLong — the verdict and events on "
                     "the segments before that call are the RFC predicate's, the call adds none; the upgrade hand-off lines (H) are computed by Model/WsUp.upParse: c13_partial_handoff (through c12's "
-                    "upFeed_handoff) carries the theorem behind a hand-off; M/T/Q/P/Z lines of the shared stream are computed by modules outside "
-                    "C13's closure (over-comparison)",
+                    "upFeed_handoff) carries the theorem behind a hand-off; M/T/Q/P/Z lines and the wire of B lines of sendq= cases (Model/WsBatch.batchQ) are computed by modules outside "
+                    "C13's closure (over-comparison); `hnd` cases (handler configurations data-frame only / both) are outside the model: the driver "
+                    "prints a constant line, they contribute oracle evidence only (c13-accept, accept direction only: a sequence the RFC allows is "
+                    "not failed; text validity and the fragment sum are not judged there), no differential evidence and no theorem",
             "technique": "Lean 4 proof (decoder agreement + induction over the frame list, decide over regenerated tables) + differential correspondence"},
         "lean": ["NbioVerif.Properties.C13", srcgen.BRIDGE_WS], "drivers": ["wsdrv"], "harness": ["hws"],
         "facts": [ws_facts, srcgen.src_facts],
@@ -134,8 +136,11 @@ PROPS = {
                     "read-limit clause proved as partial (known finding ws-readlimit-first-read); 'fails the connection' = Parse returns an error: "
                     "the close itself is the engine's, harness glue; c15_1009 assumes the conn was still open when the reply was written; the upgrade "
                     "hand-off lines (H) are computed by Model/WsUp.upParse: c15_delivered_within_handoff carries the delivered bound behind a hand-off "
-                    "(no bound is claimed for the HTTP response bytes before the upgrade: ReadLimit of the HTTP parser, C08); M/T/Q/P/Z lines of the "
-                    "shared stream are computed by modules outside C15's closure (over-comparison)",
+                    "(no bound is claimed for the HTTP response bytes before the upgrade: ReadLimit of the HTTP parser, C08); M/T/Q/P/Z lines and the wire of B lines of sendq= cases (Model/WsBatch.batchQ) are computed by modules outside C15's closure "
+                    "(over-comparison); `hnd` cases (handler configurations data-frame only / both) are outside the model: the driver prints a "
+                    "constant line, they contribute oracle evidence only (c15-limit ... handlers=<h>: per-frame limit, cache bound, 1009), no "
+                    "differential evidence and no theorem; with a data-frame handler only nothing is assembled and the SUM of a message's "
+                    "fragments is not limited (per-frame test only) — not judged",
             "technique": "Lean 4 proof (invariant by induction over the frame loop and the segment list) + differential correspondence"},
         "lean": ["NbioVerif.Properties.C15", srcgen.BRIDGE_WS], "drivers": ["wsdrv"], "harness": ["hws"],
         "facts": [ws_facts, srcgen.src_facts],
